@@ -559,6 +559,10 @@ func replay(in *core.Lines, args []string, seed int64, sum *core.Summary) error 
 		}
 		sig := func(kind string) string { return fmt.Sprintf("matrep:%s:%s:%s", c.Op, kind, where) }
 		combos[c.Op+":"+where] = true
+		tall := c.Op == "CopyTri" && ((c.Args[0].Rep.Tw == "N" && c.Args[0].Rep.R > c.Args[0].Rep.C) || (c.Args[0].Rep.Tw != "N" && c.Args[0].Rep.C > c.Args[0].Rep.R))
+		if tall { // signature detail only: the operand of TriDense.Copy has more rows than columns
+			where += "-tall"
+		}
 
 		// operands, each on a private copy of the emitted backing array
 		ops := make([]mat.Matrix, len(c.Args))
